@@ -98,3 +98,14 @@ package retrieval
 //@   requires s != nil && s.storer != nil && s.accounting != nil && s.logger != nil && stream != nil
 //@   requires s.metrics.ChunkTransferredError != nil && s.metrics.TotalTransferred != nil
 //@   requires p.Mode.Bv != nil && len(p.Mode.Bv.b) >= 1
+
+//@ # ---- C06: a coalesced retrieval serves only requests for the same chunk --------------------------
+//@ # RetrieveChunk shares one in-flight retrieval among the callers that present the same key; a caller
+//@ # is therefore handed a chunk for the address it asked for only if the key is made from the root and
+//@ # the chunk address (and nothing else takes their place)
+//@ extern func (*github.com/gauss-project/aurorafs/pkg/singleflight.Group).Do
+//@   assigns nothing
+//@ func (*Service).RetrieveChunk
+//@   property C06
+//@   requires s != nil && s.metrics.RequestCounter != nil
+//@   callassert Group.Do coalescing-key-names-root-and-chunk: $key == sprintf("%s,%s", rootAddr, chunkAddr)
